@@ -94,6 +94,9 @@ def specs(pid, tier):
                 sp.append(("hrs", w, h, None, 16 + ((w + 1) // 2) * h))
         for sk in (1, 2):
             sp.append(("hrs", 4, 1, sk, 18 + sk))
+        # widths above the 320 pixels of a screen line
+        sp.append(("hrs", 324, 2, None, 16 + 162 * 2))
+        sp.append(("hrs", 640, 1, None, 16 + 320))
         for n in range(0, 9 if not T else 19):
             sp.append(("pix", n))
         for cols in (8, 16, 12, 4, 20) + ((24, 9) if T else ()):
@@ -150,6 +153,7 @@ def specs(pid, tier):
         sp.append(("cm3", 0x01, ((128, None),), 0, 2))
         sp.append(("cm3", 0x01, ((128, None),), 3, 1))
         sp.append(("cm3", 0x81, ((128, None),), 0, 1))
+        # a compressed line whose control byte announces fewer second-stream bytes than its first stream needs
         sp.append(("cm3trunc",))
         for n in (0, 1, 2):
             sp.append(("vef", None, n, None))
@@ -1099,6 +1103,22 @@ def _truncation_sweeps(out, spec, st):
             out["paths"] += 1
             if stt == "ok" and len(o) != expect:
                 out["sigs"].append(("silent:cm3toppm:truncated", f"CM3 truncated to {L} bytes: success with {len(o)} output bytes", {"length": L}))
+        # compressed lines (every byte a literal: 20 first-stream bytes FF, 20 second-stream bytes FF, 160 literals); then one
+        # line's control byte corrupted to announce fewer / more second-stream bytes than the first stream needs
+        cline = bytes([20]) + bytes([0xFF] * 20) + bytes([0xFF] * 20) + bytes(range(160))
+        fullc = head + bytes([192]) + cline * 192
+        stt, o = run(fullc)
+        if stt != "ok" or len(o) != expect:
+            raise HarnessError(f"reference compressed CM3 file is not accepted: {stt} {len(o)}")
+        for which, pos in (("first", len(head) + 1), ("middle", len(head) + 1 + 201 * 96), ("last", len(head) + 1 + 201 * 191)):
+            for newc in (19, 10, 0, 21, 127):
+                bad = bytearray(fullc)
+                bad[pos] = newc
+                stt, o = run(bytes(bad))
+                st.bump("obligations")
+                out["paths"] += 1
+                if stt == "ok" and len(o) != expect:
+                    out["sigs"].append((f"silent:cm3toppm:control-byte-{'below' if newc < 20 else 'above'}-need", f"CM3 whose {which} line announces {newc} second-stream bytes where 20 are needed: success with {len(o)} of {expect} output bytes", {"line": which, "control": newc}))
         for lines in (0, 1, 191):
             stt, o = run(head + bytes([lines]) + line * lines)
             st.bump("obligations")
@@ -1277,6 +1297,7 @@ def run_prop(pid, tier):
     if pid == "C18":
         decoder_cli(ctx)
         complete_files(ctx)
+        decoder_history(ctx, ["hrstoppm", "pixtopgm", "maxtoppm", "mgetoppm", "mgetoppm:rle", "rattoppm", "cm3toppm"])
     if pid == "C16":
         decoder_history(ctx, ["hrstoppm", "pixtopgm", "maxtoppm", "mgetoppm"])
     if pid == "C17":
@@ -1293,7 +1314,8 @@ def history_files():
     files = {}
     pal_a, pal_b = bytes(range(16)), bytes((63 - 3 * i) % 64 for i in range(16))
     files["hrstoppm"] = [(pal_a + bytes((i * 7) % 256 for i in range(160 * 192)), (320, 192, None)), (pal_b + bytes((i * 11 + 5) % 256 for i in range(160 * 192)), (320, 192, None))]
-    files["pixtopgm"] = [(bytes((i * 5) % 256 for i in range(128)), ()), (bytes((255 - i) % 256 for i in range(128)), ())]
+    # the second PIX picture is smaller than the first (a decoder that keeps its sample buffer writes the stale tail)
+    files["pixtopgm"] = [(bytes((i * 5) % 256 for i in range(128)), ()), (bytes((255 - i) % 256 for i in range(32)), ())]
     files["maxtoppm"] = [(bytes([0, 0x18, 0, 0, 0]) + bytes((i * 3) % 256 for i in range(6144)), (0, False, 256, None, None, False)),
                          (bytes([0, 0x18, 0, 0, 0]) + bytes((i * 13 + 1) % 256 for i in range(6144)), (3, False, 256, None, None, False))]
     head_m = lambda pal: bytes([0]) + pal + bytes([0, 0xFF]) + bytes(S.MGE_TITLE) + bytes([7, 0x21])  # noqa: E731
